@@ -355,7 +355,7 @@ def run(F, R, tier):
                 if n["name"] in ("insert", "get_mut", "remove", "entry") and field_of(n["recv"]) in ("module_slots", "redirects"):
                     key = peel_value(n["args"][0])
                     ok = False
-                    if key.get("k") == "Field" and key["field"] == "specifier" and item and peel(key["e"]).get("lid") == item["lid"]:
+                    if item and any(k_.get("k") == "Field" and k_["field"] == "specifier" and peel(k_["e"]).get("lid") == item["lid"] for y_ in through_locals(n["args"][0]) for k_ in [peel_value(y_)]):
                         ok = True
                     elif key.get("res") == "local":
                         # bound in an arm guarded by `<key> == item.specifier`
